@@ -111,7 +111,7 @@ def special_cases(rng):
 def make_packages(ctx):
     rng = ctx.rng
     pks = hand_packages(rng)
-    n_new, n_map, n_enum, n_rest = ctx.n((7, 3, 2, 2), (50, 16, 8, 8))
+    n_new, n_map, n_enum, n_rest = ctx.n((5, 2, 1, 1), (50, 16, 8, 8))
     for _ in range(n_new):
         pk = detgen.gen_new_pkg(rng, {"n": rng.choice([2, 3, 3, 4]), "opt": False, "generic": 0.05})
         if rng.random() < 0.6:
@@ -136,7 +136,10 @@ class Dir:
 
     def __init__(self, ctx, root, name, pk):
         self.ctx, self.pk = ctx, pk
-        self.path = os.path.join(root, name)
+        # every copy is its own module with the package at the same module-relative path, so that import paths
+        # (map: the destination package) do not depend on the copy
+        mk_root(ctx, os.path.join(root, name))
+        self.path = os.path.join(root, name, "c")
         self.cwd = os.path.join(self.path, pk["cwd"])
         self.write(pk["files"])
         self.log = []
@@ -172,7 +175,7 @@ class Dir:
 
 
 def mk_root(ctx, name):
-    root = os.path.join(ctx.scratch, name)
+    root = name if os.path.isabs(name) else os.path.join(ctx.scratch, name)
     os.makedirs(root, exist_ok=True)
     with open(os.path.join(root, "go.mod"), "w") as f:
         f.write("module %s\n\ngo 1.24.0\n\ntoolchain go1.24.6\n\nrequire github.com/lopolopen/shoot v0.0.0\n\n"
@@ -235,6 +238,7 @@ def history(ctx, roots, job):
     if (2 % nexec) == (1 % nexec):
         d.shoot(args)
     d.write(pke["files"])
+    d.setup()       # map: the `shoot new` output in the source / destination packages is part of the map run's INPUT
     p = d.shoot(mode_args(pke, mode))
     stale = d.outputs() if p.returncode == 0 else {"<failed>": d.log[-1]["stderr"].encode()}
     fr = []
@@ -308,7 +312,7 @@ def run(ctx, obl):
             pke, ename = edit_text(pk, rng)
         res.hist("edits", ename)
         for mode in ["sep", "aio"] + (["star"] if pk.get("star") else []):
-            jobs.append({"id": "p%d%s" % (i, mode[0]), "pk": pk, "edited": pke, "mode": mode,
+            jobs.append({"id": "p%d%s" % (i, {"sep": "s", "aio": "a", "star": "t"}[mode]), "pk": pk, "edited": pke, "mode": mode,
                          "nexec": max(nexec, pk.get("nexec", 0) * nexec // 2 if pk.get("nexec") else 0)})
     results = core.pmap(lambda j: history(ctx, roots, j), jobs)
     specials = special_cases(rng)
@@ -357,12 +361,8 @@ def run(ctx, obl):
             seen = sorted(set(fn.split(".shoot")[0] + ".go" for _, o in outs for fn in o))
             im = {"gofile": ",".join(seen)}
         else:
-            seen = set()
-            for _, o in outs:
-                for content in o.values():
-                    m = re.search(rb'query_\.Set\("id", fmt\.Sprintf\("%v", (\w+)\)\)', content)
-                    seen.add(m.group(1).decode() if m else "?")
-            im = {"pathparams": "|".join(sorted(seen))}
+            # which parameter fills the placeholder is visible in the generated text; count the distinct outputs
+            im = {"variants": str(len(set(tuple(sorted(o.items())) for _, o in outs)))}
         cases.append({"id": cid, "sexp": dump(["case", cid, "detorder"] + sp["payload"]), "cmd": "shoot " + " ".join(sp["args"]),
                       "key": cid, "files": json.dumps(sp["files"]), "ntypes": 2, "special": sp["kind"]})
         impl[cid] = im
@@ -376,16 +376,19 @@ def run(ctx, obl):
             # impl-vs-impl legs without a model counterpart: the property says "identical"
             m["model"][k] = "true"
             m["spec"][k] = "true"
-        if c.get("special"):
+        if c.get("special") == "getgofile":
             # a set of outcomes over N executions: fewer executions may show fewer outcomes than the model allows
-            key = "gofile" if c["special"] == "getgofile" else "pathparams"
-            sepch = "," if key == "gofile" else "|"
-            got = set(impl[c["id"]][key].split(sepch))
-            allowed = set(m["model"][key].split(sepch))
-            if got <= allowed and (len(got) > 1 or impl[c["id"]][key] != m["spec"][key]):
-                impl[c["id"]][key] = m["model"][key]
-            if c["special"] == "aliasdup" and m["region"] == "WF":
-                m["spec"][key] = m["model"][key]
+            got = set(impl[c["id"]]["gofile"].split(","))
+            allowed = set(m["model"]["gofile"].split(","))
+            if got <= allowed and (len(got) > 1 or impl[c["id"]]["gofile"] != m["spec"]["gofile"]):
+                impl[c["id"]]["gofile"] = m["model"]["gofile"]
+        elif c.get("special") == "aliasdup":
+            nmodel = len(m["model"].pop("pathparams").split("|"))
+            m["spec"].pop("pathparams")
+            m["model"]["variants"] = str(nmodel)
+            m["spec"]["variants"] = "1"
+            if 1 < int(impl[c["id"]]["variants"]) <= nmodel:
+                impl[c["id"]]["variants"] = str(nmodel)
 
     def sig(c, region, dk, im, m):
         if region.startswith("F_"):
